@@ -227,6 +227,246 @@ def sched_scenarios(tier, runs=None):
     return out
 
 
+# ----------------------------------------------------------------------------------------- listener (Accept / Expect / Close)
+LISTEN_INVS = ["C06_TakeOver", "C06_NoStaleEntry", "C06_SessionOnce", "C06_Outcome", "C06_NoPanic", "C06_ListenNoStall", "C15_OpenIffAccepted"]
+LISTEN_DEVS = [("ExpectDeletesForeignEntry", "C06_TakeOver"), ("ExpectDeletesForeignEntry", "C06_ListenNoStall"),
+               ("ExpectLeavesEntry", "C06_NoStaleEntry"), ("ExpectLeavesEntry", "C06_ListenNoStall"),
+               ("CloseClosesQueue", "C06_NoPanic"), ("HandOverKeepsEntry", "C06_NoStaleEntry")]
+
+LISTEN_MC_CFG = """CONSTANTS
+  XCalls = %(x)s
+  ACalls = %(a)s
+  Opens = %(o)s
+  Pings = %(p)s
+  Dev = %(dev)s
+  XKey <- XKey1
+  OKey <- OKey1
+  MaxEnv = %(env)d
+SPECIFICATION MCSpec
+%(props)s
+CHECK_DEADLOCK FALSE
+"""
+
+LISTEN_TR_CFG = """CONSTANTS
+  XCalls = {"x1", "x2", "x3"}
+  ACalls = {"a1", "a2", "aL"}
+  Opens = {"o1", "o2"}
+  Pings = {"p1"}
+  Dev = {}
+  XKey <- NoKey
+  OKey <- NoKey
+  MaxEnv = 0
+SPECIFICATION TSpec
+CONSTRAINT HW
+POSTCONDITION Accepted
+CHECK_DEADLOCK FALSE
+"""
+
+
+def listen_mc_cfg(x='{"x1", "x2"}', a='{"a1"}', o='{"o1"}', p='{"p1"}', env=7, dev="{}", props=None):
+    props = props if props is not None else "\n".join("INVARIANT " + i for i in LISTEN_INVS)
+    return LISTEN_MC_CFG % dict(x=x, a=a, o=o, p=p, env=env, dev=dev, props=props)
+
+
+def listen_design_checks(ctx, workers=None):
+    """pipeline A of the accepting side's rendezvous (IBBListen.tla): take-over (two Expect calls for one session), two
+    sessions, Accept, Close, cancellation anywhere; every named deviation must break its invariant"""
+    w = workers or max(2, verif.NCPU // 2)
+    quick = ctx.tier == "quick"
+    runs = [("takeover", dict(env=7 if quick else 9)),
+            ("twokeys", dict(x='{"x1", "x3"}', o='{"o1", "o2"}', p="{}", env=7 if quick else 8))]
+    if not quick:
+        runs.append(("all", dict(x='{"x1", "x2", "x3"}', o='{"o1", "o2"}', env=8)))
+    st = gen = 0
+    for name, kw in runs:
+        r = ctx.model_check("MCIBBListen", listen_mc_cfg(**kw), LISTEN_INVS, name="MCIBBListen_" + name, workers=w, timeout=1500)
+        st += r.distinct
+        gen += r.generated
+    for dev, prop in LISTEN_DEVS:
+        r = ctx.tlc("MCIBBListen", listen_mc_cfg(p="{}", dev='{"%s"}' % dev, props="INVARIANT " + prop), name="MCIBBListen_dev", workers=2, timeout=600)
+        if prop not in r.violated:
+            raise verif.Undecided("listener design check is vacuous: deviation %s does not violate %s (%s)" % (dev, prop, r.violated))
+    return {"listen_states": st, "listen_transitions": gen, "listen_deviations_detected": len(LISTEN_DEVS)}
+
+
+def lop(o, c="", sid="", frm=""):
+    d = {"op": o, "e": "b", "n": 0}
+    if c:
+        d["c"] = c
+    if sid:
+        d["sid"] = sid
+    if frm:
+        d["from"] = frm
+    return d
+
+
+def lscen(name, procs, listen=True, maxpre=2, maxruns=0):
+    return {"name": name, "mode": "listen", "bs": 0, "carrier": "iq", "maxbuf": {}, "listen": listen, "preopen": False, "sched": True,
+            "procs": [{"name": n, "ops": o} for n, o in procs], "maxpre": maxpre, "maxruns": maxruns}
+
+
+def listen_scenarios(tier, runs=None):
+    """Accept / Expect / Listener.Close against real open requests.  Proc names are chosen so that the first (non-pre-empting,
+    alphabetical) schedule of each scenario is the documented sequence; the exploration then moves the cancellation, the
+    second Expect, the open request and the Close to every other place (pre-emption bounded)."""
+    mr = runs or (1500 if tier == "thorough" else 100)
+    mp = 3 if tier == "thorough" else 2
+    X = lambda c, sid, frm="": lop("expect", c, sid, frm)
+    O = lambda c, sid: lop("open", c, sid)
+    out = [
+        # the documented take-over: the second Expect for a session cancels the first and takes over; then the session is opened
+        lscen("takeover", [("e1", [X("x1", "k1")]), ("e2", [X("x2", "k1")]), ("o", [O("o1", "k1"), lop("ping", "p1")])]),
+        lscen("takeover3", [("e1", [X("x1", "k1")]), ("e2", [X("x2", "k1")]), ("e3", [X("x3", "k1")]), ("o", [O("o1", "k1")])]),
+        # a caller goes away before / while / after its session is opened
+        lscen("cancel", [("e1", [X("x1", "k1")]), ("k", [lop("cancel", "x1")]), ("o", [O("o1", "k1"), lop("ping", "p1")])]),
+        lscen("cancel-takeover", [("e1", [X("x1", "k1")]), ("e2", [X("x2", "k1")]), ("k", [lop("cancel", "x2")]), ("o", [O("o1", "k1")]),
+                                  ("y", [lop("accept", "a1")])]),
+        # two expectations for different sessions, opened in the other order
+        lscen("twokeys", [("e1", [X("x1", "k1")]), ("e2", [X("x3", "k2")]), ("o", [O("o1", "k2")]), ("p", [O("o2", "k1")])]),
+        # an expectation for a session that is never opened (other peer address), Accept takes what nobody expects
+        lscen("neveropens", [("e1", [X("x1", "k1")]), ("e2", [X("x3", "k2", "z@example.net")]), ("f", [lop("accept", "a1")]), ("o", [O("o2", "k2")])]),
+        # a listener, nobody accepting
+        lscen("nobody", [("o", [O("o1", "k1")]), ("p", [lop("ping", "p1")])]),
+        # Expect takes precedence over Accept
+        lscen("precedence", [("e1", [X("x1", "k1")]), ("f", [lop("accept", "a1")]), ("o", [O("o1", "k1")])]),
+        lscen("twoopens", [("e1", [X("x1", "k1")]), ("f", [lop("accept", "a1")]), ("o", [O("o1", "k1")]), ("p", [O("o2", "k1")])]),
+        lscen("accept2", [("f", [lop("accept", "a1")]), ("g", [lop("accept", "a2")]), ("o", [O("o1", "k1")]), ("p", [O("o2", "k2")])]),
+        # Listener.Close: pending Accept calls return, later open requests are refused, a pending session does not break the serve loop
+        lscen("lclose-accept", [("f", [lop("accept", "a1")]), ("l", [lop("lclose")]), ("o", [O("o1", "k1")])]),
+        lscen("lclose-pending", [("o", [O("o1", "k1")]), ("x", [lop("lclose")]), ("y", [lop("ping", "p1")])]),
+        lscen("lclose-expect", [("e1", [X("x1", "k1")]), ("l", [lop("lclose")]), ("o", [O("o1", "k1")])]),
+        lscen("nolistener", [("o", [O("o1", "k1"), lop("ping", "p1")])], listen=False),
+    ]
+    for i, s in enumerate(out):
+        s["name"] = "%s#L%d" % (s["name"], i)
+        s["maxruns"], s["maxpre"] = mr, mp
+    return out
+
+
+def validate_listen(ctx, trace, timeout=1200):
+    r = ctx.tlc("TrIBBListen", LISTEN_TR_CFG, files={"trace.ndjson": trace}, workers=1, timeout=timeout, xss=True, deque=True, name="TrIBBListen")
+    rejected = {}
+    body = r.printed("REJECTED")
+    if body:
+        for m in re.finditer(r"<<(\d+),\s*(\d+)>>", body[-1]):
+            rejected[int(m.group(1))] = int(m.group(2))
+    if not rejected and (r.rc != 0 or r.errors):
+        raise verif.Undecided("listener trace validation failed to run:\n" + r.out[-6000:])
+    return rejected, r
+
+
+def listen_describe(ev, trace=None):
+    k = ev.get("ev") if ev else None
+    if k == "stuck":
+        return ("permanent stall at the accepting side of an in-band bytestream: every goroutine is blocked, the serve loop is %s and these calls are waiting "
+                "although nothing the application or the peer still owes could end the wait: %s (%s)" % (
+                    "inside the open handler" if ev.get("serving") else "reading", json.dumps(ev.get("blocked")), ev.get("status")))
+    if k == "panic":
+        return "ibb listener code panicked in %s: %s" % (ev.get("in"), ev.get("what"))
+    if k == "expect_ret":
+        return "Listener.Expect call %s returned %s (session %s), which IBBListen.tla does not allow in this state" % (ev.get("c"), ev.get("out"), ev.get("key"))
+    if k == "accept_ret":
+        return "Listener.Accept call %s returned %s (session %s), which IBBListen.tla does not allow in this state" % (ev.get("c"), ev.get("out"), ev.get("key"))
+    if k == "req_ret":
+        return "request %s of the peer (Open / unrelated request) returned %s, which is not the outcome of its own reply or context" % (ev.get("c"), ev.get("out"))
+    if k == "reply":
+        return "the open request %s was answered with %s %s, which the state of the listener does not allow (accepted without a taker / refused with one)" % (ev.get("c"), ev.get("res"), ev.get("cond"))
+    if k == "serve_ret":
+        return "the serve loop of endpoint %s ended (%s) while handling an open request" % (ev.get("e"), ev.get("err"))
+    if k == "end":
+        return "at the end of the run (every caller gone, a late Accept supplied, the listener closed) a call has not returned or a request was never handled"
+    return "listener event %s is not allowed by IBBListen.tla" % json.dumps(ev)[:200]
+
+
+def run_listen_part(ctx, tag, runs=None, case=None):
+    """pipelines B/C of the accepting side: explore the listener scenarios on the real code, validate every distinct trace
+    against TrIBBListen.tla.  Returns (rejected, traces-by-number, meta, driver summary, TLC result)."""
+    scen = [case["scenario"]] if case else listen_scenarios(ctx.tier, runs)
+    files, summ = run_driver(ctx, scen, tag, shards=min(max(2, verif.NCPU // 2), len(scen)))
+    tr, meta = merge_traces(ctx, files, "ibb-%s-trace.ndjson" % tag)
+    rej, r = validate_listen(ctx, tr)
+    trs = verif.split_traces(verif.read_ndjson(tr)) if rej else {}
+    return rej, trs, meta, summ, r, tr
+
+
+def report_listen(ctx, rej, trs, meta, classes=None):
+    """one violation per (scenario family, rejected event kind)"""
+    classes = classes if classes is not None else {}
+    for t, hw in sorted(rej.items()):
+        ev = [e for e in trs[t] if e["_line"] == hw]
+        ev = ev[0] if ev else None
+        key = "%s/%s" % (meta[t]["scenario"]["name"].split("#")[0], (ev or {}).get("ev"))
+        classes[key] = classes.get(key, 0) + 1
+        if classes[key] > 1:
+            continue
+        sc = dict(meta[t]["scenario"])
+        sc["choices"] = meta[t].get("choices") or []
+        ctx.violation("%s [ibb listener scenario %s]" % (listen_describe(ev), sc["name"]),
+                      {"family": "ibb", "scenario": sc, "choices": sc["choices"], "rejected_line": hw, "rejected_event": ev,
+                       "trace": [{k: v for k, v in e.items() if k not in ("_line", "status")} for e in trs[t]][-120:]})
+    return classes
+
+
+def listen_selftest(ctx, trace, meta):
+    """binding self-test of the listener traces: corrupt an accepted take-over trace (the Expect that took over never
+    returns and the serve loop is stuck in the handler; the superseded call gets the session; an Open succeeds without a
+    reply): TLC must reject each"""
+    trs = verif.split_traces(verif.read_ndjson(trace))
+    good = [t for t, tr in trs.items() if meta[t]["scenario"]["name"].startswith("takeover#")
+            and [e.get("ev") for e in tr].count("expect_ret") == 2 and not any(e.get("ev") == "stuck" for e in tr)
+            and any(e.get("ev") == "expect_ret" and e.get("out") == "stream" for e in tr)
+            and any(e.get("ev") == "expect_ret" and e.get("out") == "ctx" for e in tr)]
+    if not good:
+        raise verif.Undecided("listener binding self-test: no suitable accepted trace")
+    base = [{k: v for k, v in e.items() if k != "_line"} for e in trs[good[0]]]
+    muts = []
+    # 1. the call that took over is left waiting, the serve loop stays in the handler
+    i = [k for k, e in enumerate(base) if e.get("ev") == "deliver"][0]
+    win = [e for e in base if e.get("ev") == "expect_ret" and e.get("out") == "stream"][0]
+    pre = [e for e in base[:i + 1] if not (e.get("ev") == "expect_ret" and e.get("out") == "stream")]
+    pending = [{"p": "o", "c": "o1", "in": "open"}, {"p": "e", "c": win["c"], "in": "expect"}]
+    m = pre + [{"ev": "stuck", "blocked": pending, "serving": True, "status": ""}, {"ev": "end"}]
+    if not any(e.get("ev") == "expect_ret" and e.get("out") == "ctx" for e in pre):
+        m = None
+    if m:
+        muts.append(("the Expect that took over never gets the session", m))
+    # 2. a call returns its context's error although nobody cancelled it and nobody has taken over yet
+    m = [dict(e) for e in base]
+    lose = [k for k, e in enumerate(m) if e.get("ev") == "expect_ret" and e.get("out") == "ctx"][0]
+    calls = [k for k, e in enumerate(m) if e.get("ev") == "expect_call"]
+    e = m.pop(lose)
+    second = [k for k in calls if m[k]["c"] != e["c"]][0]
+    if second > [k for k in calls if m[k]["c"] == e["c"]][0]:
+        m.insert(second, e)
+        muts.append(("Expect returned a context error before the take-over", m))
+    # 3. Open returns success before any reply
+    m = [dict(e) for e in base if e.get("ev") != "reply"]
+    muts.append(("reply to the open request removed", m))
+    # 4. the session handed over is another one
+    m = [dict(e) for e in base]
+    for e in m:
+        if e.get("ev") == "expect_ret" and e.get("out") == "stream":
+            e["key"] = ":k2"
+    muts.append(("Expect returned another session", m))
+    p = ctx.path("listen-selftest.ndjson")
+    line = 0
+    with open(p, "w") as f:
+        for k, (_, mm) in enumerate([("unchanged", base)] + muts):
+            mm[0] = dict(mm[0])
+            mm[0]["t"] = k + 1
+            mm[0]["end"] = line + len(mm) + 1
+            for e in mm:
+                f.write(json.dumps(e) + "\n")
+            line += len(mm)
+    rej, _ = validate_listen(ctx, p)
+    if 1 in rej:
+        raise verif.Undecided("listener binding self-test: unchanged trace rejected")
+    missed = [muts[k - 2][0] for k in range(2, 2 + len(muts)) if k not in rej]
+    if missed:
+        raise verif.Undecided("listener binding self-test: corrupted traces ACCEPTED: %s" % missed)
+    return len(muts)
+
+
 # ----------------------------------------------------------------------------------------- running
 
 def run_driver(ctx, scen, tag, shards=None, maxpre=2, maxruns=0, timeout=1500):
@@ -311,14 +551,29 @@ def c06_describe(ev):
     return "IBB call outcome %s is not allowed by IBB.tla" % json.dumps(ev)[:200]
 
 
-def run_c06_part(ctx):
-    """IBB part of C06: ibb.Handler.Open, Conn.Close, Conn.Read against the serve loop (handlePayload, the peer's close):
-    one outcome per call, no panic, no permanent stall in every explored interleaving.  Pipeline A: the wait / wake-up
-    protocol of IBB.tla (invariant C15_NoLostWakeup = C06_IBBNoLostWakeup, liveness C06_IBBReadReturns under fairness, both
-    shown to fail under the LostWakeup deviation).  Pipeline C: the scheduler-driven schedules of harness/cmd/ibb validated
-    against TrIBB.tla.  Violations are reported through ctx (property of the calling check); rejections that concern only
-    C15 (packet numbering, content) are counted, not reported.  Returns a coverage dict."""
-    w = max(2, verif.NCPU // 2)
+def _bg(fn, *a, **kw):
+    """run fn in a thread; .join() re-raises"""
+    import threading
+    box = {}
+
+    def go():
+        try:
+            box["r"] = fn(*a, **kw)
+        except BaseException as e:      # re-raised by join
+            box["e"] = e
+    th = threading.Thread(target=go)
+    th.start()
+
+    def join():
+        th.join()
+        if "e" in box:
+            raise box["e"]
+        return box["r"]
+    return join
+
+
+def c06_design_checks(ctx):
+    w = max(2, verif.NCPU // 4)
     a = ctx.model_check("MCIBB", mc_cfg(maxw="WOneWay2", inj=0, props="INVARIANT C06_IBBNoLostWakeup\nINVARIANT C15_OpenOnlyIfAccepted"),
                         ["C06_IBBNoLostWakeup", "C15_OpenOnlyIfAccepted"], name="MCIBB_c06", workers=w, timeout=900)
     lv = ctx.model_check("MCIBB", mc_cfg(maxw="WLive", inj=0, spec="FairSpec", props="PROPERTY C06_IBBReadReturns"), ["C06_IBBReadReturns"],
@@ -329,36 +584,76 @@ def run_c06_part(ctx):
     r = ctx.tlc("MCIBB", mc_cfg(maxw="WOneWay2", inj=0, props="INVARIANT C06_IBBNoLostWakeup", dev='{"LostWakeup"}'), name="MCIBB_c06dev2", workers=2, timeout=600)
     if "C06_IBBNoLostWakeup" not in r.violated:
         raise verif.Undecided("IBB design check is vacuous: the lost wake-up deviation does not violate C06_IBBNoLostWakeup")
+    return a, lv
+
+
+def run_c06_part(ctx):
+    """IBB part of C06: ibb.Handler.Open, Conn.Close, Conn.Read against the serve loop (handlePayload, the peer's close), and the
+    accepting side's rendezvous (Listener.Accept / Expect / Close against handleOpen): one outcome per call, no panic, no permanent
+    stall in every explored interleaving.  Pipeline A: the wait / wake-up protocol of IBB.tla (invariant C15_NoLostWakeup =
+    C06_IBBNoLostWakeup, liveness C06_IBBReadReturns under fairness, both shown to fail under the LostWakeup deviation) and the
+    rendezvous of IBBListen.tla (take-over, stale entries, hand-over once, no stall, no panic; one deviation per invariant).
+    Pipeline C: the scheduler-driven schedules of harness/cmd/ibb validated against TrIBB.tla / TrIBBListen.tla.  Violations are
+    reported through ctx (property of the calling check); rejections that concern only C15 (packet numbering, content) are
+    counted, not reported.  Returns a coverage dict."""
     case = None
     if getattr(ctx, "replay", None):
         case = json.load(open(ctx.replay))["case"]
         if case.get("family") != "ibb":
             return {}
-    scen = [case["scenario"]] if case else sched_scenarios(ctx.tier, runs=None if ctx.tier == "thorough" else 60)
-    files, summ = run_driver(ctx, scen, "c06ibb", shards=min(max(2, verif.NCPU // 2), len(scen)))
-    tr, meta = merge_traces(ctx, files, "ibb-c06-trace.ndjson")
-    rej, r = validate(ctx, tr)
-    trs = verif.split_traces(verif.read_ndjson(tr)) if rej else {}
+    ctx.go_build("ibb")
+    lcase = case if case and case["scenario"].get("mode") == "listen" else None
+    quick = ctx.tier != "thorough"
+    jl = _bg(run_listen_part, ctx, "c06listen", 60 if quick else None, lcase) if (lcase or not case) else None
+    jd = None
+    if not lcase:
+        scen = [case["scenario"]] if case else sched_scenarios(ctx.tier, runs=None if ctx.tier == "thorough" else 60)
+        jd = _bg(run_driver, ctx, scen, "c06ibb", shards=min(verif.NCPU, len(scen)))
+    jm = _bg(c06_design_checks, ctx)
+    jlm = _bg(listen_design_checks, ctx, max(2, verif.NCPU // 4))
+    cov = {}
     classes, other = {}, 0
-    for t, hw in sorted(rej.items()):
-        ev = [e for e in trs[t] if e["_line"] == hw]
-        ev = ev[0] if ev else None
-        if (ev or {}).get("ev") not in C06_EVENTS:
-            other += 1
-            continue
-        key = "%s/%s" % (meta[t]["scenario"]["name"].split("#")[0], ev.get("ev"))
-        classes[key] = classes.get(key, 0) + 1
-        if classes[key] > 1:
-            continue
-        sc = dict(meta[t]["scenario"])
-        sc["choices"] = meta[t].get("choices") or []
-        ctx.violation("%s [ibb scenario %s, %s carrier]" % (c06_describe(ev), sc["name"], sc["carrier"]),
-                      {"family": "ibb", "scenario": sc, "choices": sc["choices"], "rejected_line": hw, "rejected_event": ev,
-                       "trace": [{k: v for k, v in e.items() if k != "_line"} for e in trs[t]][-120:]})
-    if summ["runaway"]:
-        raise verif.Undecided("ibb schedules that did not end (runaway): %d" % summ["runaway"])
-    ctx.log("ibb part: %d schedules (%d distinct traces, %d events) validated in %.1fs: %d rejected for C06 reasons %s, %d for C15-only reasons" % (
-        summ["evaluations"], summ["traces"], summ["events"], r.wall, sum(classes.values()), json.dumps(classes, sort_keys=True), other))
-    return {"ibb_states": a.distinct, "ibb_liveness_states": lv.distinct, "ibb_schedules_run": summ["evaluations"], "ibb_traces_validated": summ["traces"],
-            "ibb_trace_events": summ["events"], "ibb_rejected_c06": sum(classes.values()), "ibb_rejected_c15_only": other,
-            "ibb_rule": "schedules of ibb Open/Accept, Read, Write/Flush, Close at both ends against the two real serve loops (gates: read.wait, payload.signal, open.reply, close.claim hooks, transport reads and writes), pre-emption bounded depth-first enumeration"}
+    try:
+        if jd:
+            files, summ = jd()
+            tr, meta = merge_traces(ctx, files, "ibb-c06-trace.ndjson")
+            rej, r = validate(ctx, tr)
+            trs = verif.split_traces(verif.read_ndjson(tr)) if rej else {}
+            for t, hw in sorted(rej.items()):
+                ev = [e for e in trs[t] if e["_line"] == hw]
+                ev = ev[0] if ev else None
+                if (ev or {}).get("ev") not in C06_EVENTS:
+                    other += 1
+                    continue
+                key = "%s/%s" % (meta[t]["scenario"]["name"].split("#")[0], ev.get("ev"))
+                classes[key] = classes.get(key, 0) + 1
+                if classes[key] > 1:
+                    continue
+                sc = dict(meta[t]["scenario"])
+                sc["choices"] = meta[t].get("choices") or []
+                ctx.violation("%s [ibb scenario %s, %s carrier]" % (c06_describe(ev), sc["name"], sc["carrier"]),
+                              {"family": "ibb", "scenario": sc, "choices": sc["choices"], "rejected_line": hw, "rejected_event": ev,
+                               "trace": [{k: v for k, v in e.items() if k != "_line"} for e in trs[t]][-120:]})
+            if summ["runaway"]:
+                raise verif.Undecided("ibb schedules that did not end (runaway): %d" % summ["runaway"])
+            ctx.log("ibb part: %d schedules (%d distinct traces, %d events) validated in %.1fs: %d rejected for C06 reasons %s, %d for C15-only reasons" % (
+                summ["evaluations"], summ["traces"], summ["events"], r.wall, sum(classes.values()), json.dumps(classes, sort_keys=True), other))
+            cov.update({"ibb_schedules_run": summ["evaluations"], "ibb_traces_validated": summ["traces"], "ibb_trace_events": summ["events"],
+                        "ibb_rejected_c06": sum(classes.values()), "ibb_rejected_c15_only": other})
+        if jl:
+            lrej, ltrs, lmeta, lsumm, lr, ltr = jl()
+            lclasses = report_listen(ctx, lrej, ltrs, lmeta)
+            if lsumm["runaway"]:
+                raise verif.Undecided("ibb listener schedules that did not end (runaway): %d" % lsumm["runaway"])
+            nself = listen_selftest(ctx, ltr, lmeta) if not lrej and not lcase else 0
+            ctx.log("ibb listener part: %d schedules (%d distinct traces, %d events) validated in %.1fs: %d rejected %s" % (
+                lsumm["evaluations"], lsumm["traces"], lsumm["events"], lr.wall, len(lrej), json.dumps(lclasses, sort_keys=True)))
+            cov.update({"ibb_listener_schedules_run": lsumm["evaluations"], "ibb_listener_traces_validated": lsumm["traces"],
+                        "ibb_listener_trace_events": lsumm["events"], "ibb_listener_rejected": len(lrej), "ibb_listener_selftest_mutants_rejected": nself})
+    finally:
+        a, lv = jm()
+        lcov = jlm()
+    cov.update(lcov)
+    cov.update({"ibb_states": a.distinct, "ibb_liveness_states": lv.distinct,
+                "ibb_rule": "schedules of ibb Open/Accept, Read, Write/Flush, Close at both ends against the two real serve loops (gates: read.wait, payload.signal, open.reply, close.claim hooks, transport reads and writes), and of Listener.Accept / Expect (take-over, cancellation before / while / after the open request, two sessions, a session that is never opened) / Close against real open requests with the environment escalation callers-go-away, late Accept, listener Close; pre-emption bounded depth-first enumeration"})
+    return cov
